@@ -1,4 +1,5 @@
 pub mod c02;
 pub mod c05;
 pub mod c09;
+pub mod c16;
 pub mod c17;
